@@ -113,10 +113,15 @@ def blocks(adj, comp):
     comp = set(comp)
     lab = {z: _labels(adj, comp, z) for z in comp}
 
+    memo = {}
+
     def rel(x, y):
         if y in adj[x]:
             return True
-        return all(lab[z][x] == lab[z][y] for z in comp if z != x and z != y)
+        k = (x, y) if x < y else (y, x)
+        if k not in memo:
+            memo[k] = all(lab[z][x] == lab[z][y] for z in comp if z != x and z != y)
+        return memo[k]
 
     out = set()
     for u in comp:
@@ -461,15 +466,15 @@ class Ids:
         r = self.rng
         while True:
             if self.style == "s":
-                v = "s%d" % r.randint(1, 150)
+                v = "s%d" % r.randint(1, 150 + 3 * len(self.used))
             elif self.style == "alpha":
                 v = "".join(r.choice("abcxyz019_.#") for _ in range(r.randint(1, 3)))
                 if v[0] in "#" or v.isdigit():
                     continue
             elif self.style == "case":
-                v = r.choice("nN") + r.choice(["", "0", "_"]) + str(r.randint(1, 30))
+                v = r.choice("nN") + r.choice(["", "0", "_"]) + str(r.randint(1, 30 + len(self.used)))
             else:
-                v = str(r.randint(0, 25))
+                v = str(r.randint(0, 25 + len(self.used)))
             if v not in self.used:
                 self.used.add(v)
                 return v
@@ -685,8 +690,10 @@ def make_chain_gfa(rng, n_chrom=None, style=None, size="small", extra_tags=0.2, 
             n_back, n_ears = rng.randint(1, 3), rng.randint(0, 1)
         elif size == "small":
             n_back, n_ears = rng.randint(1, 6), rng.randint(0, 4)
-        else:
+        elif size == "medium":
             n_back, n_ears = rng.randint(4, 14), rng.randint(2, 9)
+        else:
+            n_back, n_ears = rng.randint(15, 30), rng.randint(5, 20)
         add_chain(b, c, n_back, n_ears, tips=(rng.random() < 0.3, rng.random() < 0.3))
     return b.lines(interleave=rng.random() < 0.5), names
 
